@@ -158,6 +158,8 @@ def programs(noise_type, sde_type, tier='quick'):
         out.append((f"{noise_type}-d{d}m{m}v{v}", Prog(noise_type, sde_type, d, m, v)))
     if tier == 'quick':
         out = out[:2]
+    # one-dimensional state and noise (squeeze / broadcasting slips only show at size 1)
+    out.append((f"{noise_type}-d1m1v1", Prog(noise_type, sde_type, 1, 1, 1)))
     return out
 
 
